@@ -170,6 +170,9 @@ def xconds(tier):
 
 
 def replay(case):
+    if case['harness'].endswith('.t'):
+        from .. import tkernels
+        return tkernels.replay_case(case)
     if case['harness'].startswith('c04.x.'):
         return xengine.replay(case)
     from ..sengine import replay as sreplay
@@ -204,4 +207,9 @@ def run(tier):
     xengine.encoded(part, CNFLinear.add_linear, CNFLinear.add_parity, BaseOPB.cardinality_neq, BaseOPB.add_parity, normalize_opb,
                     BaseOPB.add_constraint, CNFLinear.add_loose_majority, BaseOPB.add_strict_minority)
     run.add(part, {'harness': 'c04.x', 'engine': 'X', 'conditions': len(conds)})
+    from ..core import Part
+    from .. import tkernels
+    pt = Part()
+    tkernels.run_all(pt, tier, ('threshold',), 'c04.t')
+    run.add(pt, {'harness': 'c04.t', 'engine': 'T: majority/minority threshold arithmetic for all list lengths'})
     return run.finish()
